@@ -372,5 +372,5 @@ def _worker(ctx, arg):
 
 
 def run(ctx):
-    per = 700 if ctx.tier == "quick" else 8000
+    per = 700 if ctx.tier == "quick" else 20000
     ctx.parallel(_worker, [(k, per) for k in range(core.NPROC)])
